@@ -376,7 +376,7 @@ class Fn:
                     atoms.add(("lit", int(k["v"])))
                 elif "str" in k:
                     atoms.add(("str", k["str"]))
-                elif "::" in k.get("s", "") and "fn" not in k:
+                elif "::" in k.get("s", "") and "fn" not in k and "promoted" not in k and "item" not in k and "static" not in k:
                     atoms.add(("cval", k["s"].replace("const ", "")))
 
         caps = self.captures()
